@@ -53,10 +53,30 @@ def body_producers(case, ctx):
     from npstructures import RunLengthArray
     op = case["op"]
     a = rl.dense(case["dt"], case["runs"])
-    n = len(a)
     x = rl.encode(a)
-    ctx.label("op:" + op[0], "dt:" + case["dt"])
-    ctx.nt(rl.n_runs(a) >= 2 and case["dt"] != "int64")
+    # optionally the producer is applied to a *derived* array (whose neighbouring runs may carry equal values)
+    pre = case.get("pre") or ["none"]
+    with np.errstate(all="ignore"):
+        d = None
+        if pre[0] == "floordiv":
+            d = lib(lambda: (x // 2, a // 2))
+        elif pre[0] == "gt":
+            d = lib(lambda: (x > a[0], a > a[0]))
+        elif pre[0] == "concat-self":
+            d = lib(lambda: (np.concatenate([x, x]), np.concatenate([a, a])))
+        elif pre[0] == "mul0":
+            d = lib(lambda: (x * 0, a * 0))
+        if d is not None:
+            if not d.ok:
+                ctx.label("pre-refused-not-asserted")
+                return
+            x, a = d.value
+            a = np.asarray(a)
+            rl.expect_rl(lib(lambda: x), a, "derived-parent", strict=False, pre=pre)
+    n = len(a)
+    derived = d is not None
+    ctx.label("op:" + op[0], "dt:" + case["dt"], "parent:" + pre[0])
+    ctx.nt((rl.n_runs(a) >= 2 and case["dt"] != "int64") or derived)
     with np.errstate(all="ignore"):
         if op[0] == "slice":
             s = slice(op[1], op[2], op[3])
@@ -104,7 +124,7 @@ def body_producers(case, ctx):
         else:
             raise ValueError(op)
     # the source is still canonical and unchanged
-    rl.expect_rl(lib(lambda: x), a, "source-after", strict=True)
+    rl.expect_rl(lib(lambda: x), a, "source-after", strict=not derived)
 
 
 UNARY = ["negative", "absolute", "logical_not", "square", "sign", "isnan", "invert"]
@@ -131,7 +151,8 @@ def producer_case(draw, tier):
         op = ["concat", draw(st.lists(rl.runs(dt, tier, max_runs=4), min_size=0, max_size=3))]
     else:
         op = ["mask", draw(rl.runs("bool", tier))]
-    return {"dt": dt, "runs": runs, "op": op}
+    pre = draw(st.sampled_from([["none"], ["none"], ["none"], ["floordiv"], ["gt"], ["concat-self"], ["mul0"]]))
+    return {"dt": dt, "runs": runs, "op": op, "pre": pre}
 
 
 SUBCHECKS = [
